@@ -41,6 +41,7 @@ func c01(r *rep.Run) {
 	nCore := len(progs)
 	progs = append(progs, Programs(Rich(), []term.Ty{B, I}, richMax)...)
 	progs = append(progs, widePrograms(6)...)
+	progs = append(progs, extraPrograms()...)
 	progs = withMerged(progs, 5)
 	r.Cov["programs_core"] = nCore
 	r.Cov["programs_rich"] = len(progs) - nCore
@@ -202,8 +203,9 @@ func sweepOperands() []*term.Term {
 	return []*term.Term{
 		term.Const(true), term.Const(false),
 		term.Const(0), term.Const(1), term.Const(-1), term.Const(3),
+		{K: term.KConst, Val: int64(10), Lit: "010", Ty: term.TI}, // a leading zero does not change the base
 		term.Const("a"), term.Const("2021-03-04"), term.Const("1.2.3"),
-		term.Const([]int64{1, 3}), term.Const([]string{"a"}), term.Const([]string{}),
+		{K: term.KConst, Val: []int64{1, 3, 10, -10}, Lit: "(1 3 010 -010)", Ty: term.TIL}, term.Const([]string{"a"}), term.Const([]string{}),
 	}
 }
 
